@@ -2,9 +2,12 @@
 Base/PyOps.v, Base/PyOps2.v and Base/PyObj.v, rewritten on every run from /repo's working tree into
 coq/theories/Gen/StructGuards.v:
 
-  Structure.__setattr__          -> res (option pyval)   None = returns without reaching the descriptor,
-                                                          Some v = hands v to the field's __set__ chain
-  Structure.__delitem__          -> res unit             Ok = reaches `del self.__dict__[key]`
+  Structure.__setattr__          -> res (option (pyval * bool))   None = returns without reaching the descriptor,
+                                                          Some (v, rb) = hands v to the field's __set__ chain; rb: an
+                                                          exception raised by the chain restores self.__dict__[key]
+                                                          to what it was before the hand-over and is re-raised
+  Structure.__delitem__          -> res (bool * bool)    Ok (hook, rb) = removes key from self.__dict__, then (hook) runs
+                                                          __validate__; rb: a raising hook puts the removed value back
   ImmutableMixin._is_immutable   -> res bool
   ImmutableMixin._raise_if_immutable -> res unit
   Field.__set__                  -> res (pyval * bool)   (value stored in instance.__dict__, __validate__ called?)
@@ -108,6 +111,14 @@ class Tr3:
                 return b0 + [(t, 'obj_getattr h %s (s2p "%s")' % (o, self.attr_name(e.args[1])))], t
         if isinstance(e, ast.Call) and isinstance(e.func, ast.Name) and e.func.id == "deepcopy" and len(e.args) == 1:
             return self.val(e.args[0])
+        if isinstance(e, ast.Call) and isinstance(e.func, ast.Attribute) and e.func.attr == "get" \
+                and len(e.args) in (1, 2) and not e.keywords:
+            # d.get(k[, default]) on a run-time dictionary
+            b0, d = self.val(e.func.value)
+            b1, k = self.val(e.args[0])
+            b2, dflt = self.val(e.args[1]) if len(e.args) == 2 else ([], "PNone")
+            t = self.fresh()
+            return b0 + b1 + b2 + [(t, "PyOpsVersioned.py_dict_get %s %s %s" % (d, k, dflt))], t
         if isinstance(e, ast.Call) and isinstance(e.func, ast.Attribute) and not e.args and not e.keywords:
             # o.m(): a parameterless query method of an object, seen as the attribute "m()"
             if isinstance(e.func.value, ast.Name) and e.func.value.id == "self" and e.func.attr in self.callees \
@@ -235,6 +246,9 @@ class Tr3:
         if self._alias_only(s):
             self.notes.append("alias-only statement skipped at line %d (a deep copy is the identity on values)" % s.lineno)
             return nxt()
+        r = self.mode.first(self, s, st, nxt)
+        if r is not None:
+            return r
         if isinstance(s, ast.If):
             c = self.cond(s.test)
             saved = dict(self.env)
@@ -291,62 +305,203 @@ def _is_super_call(call, name):
             and isinstance(f.value.func, ast.Name) and f.value.func.id == "super")
 
 
-class SetattrMode:
-    ret = "option pyval"
+def _is_self_dict(e):
+    return (isinstance(e, ast.Attribute) and e.attr == "__dict__" and isinstance(e.value, ast.Name)
+            and e.value.id == "self")
+
+
+def _is_key(tr, e):
+    return isinstance(e, ast.Name) and tr.env.get(e.id) == "key"
+
+
+def _is_self_dict_key(tr, e):
+    """self.__dict__[key]"""
+    return isinstance(e, ast.Subscript) and _is_self_dict(e.value) and _is_key(tr, e.slice)
+
+
+def _catches_everything(h):
+    """`except Exception:` / `except BaseException:` / bare `except:` without a bound name"""
+    return h.name is None and (h.type is None or (isinstance(h.type, ast.Name) and h.type.id in ("Exception", "BaseException")))
+
+
+def _bare_reraise(s):
+    return isinstance(s, ast.Raise) and s.exc is None and s.cause is None
+
+
+class Mode:
+    def first(self, tr, s, st, nxt):
+        return None
+
+
+class SetattrMode(Mode):
+    """super().__setattr__(key, X) is the hand-over to the descriptor chain.  Around it the method may keep a
+    SNAPSHOT of self.__dict__[key] (`had, old = key in self.__dict__, self.__dict__.get(key)`: pure reads, not
+    emitted) and wrap the hand-over in `try: ... except Exception: <restore>; raise`, where <restore> is
+    `if had: self.__dict__[key] = old` / `else: self.__dict__.pop(key, None)`: whatever the chain raised, the
+    entry is as it was before the hand-over.  A handler that only re-raises restores nothing."""
+    ret = "option (pyval * bool)"
 
     @staticmethod
     def init():
-        return {"handed": None}
+        return {"handed": None, "rollback": False, "snap": {}}
 
     @staticmethod
     def final(tr, st):
-        return "(Ok %s)" % ("(Some %s)" % st["handed"] if st["handed"] else "None")
+        if not st["handed"]:
+            return "(Ok None)"
+        return "(Ok (Some (%s, %s)))" % (st["handed"], E.blit(st["rollback"]))
 
     def on_return(self, tr, s, st):
         if s.value is not None:
             raise Unsupported("__setattr__ returns a value")
         return self.final(tr, st)
 
+    @staticmethod
+    def _snapshot_kind(tr, e):
+        if isinstance(e, ast.Compare) and len(e.ops) == 1 and isinstance(e.ops[0], ast.In) and _is_key(tr, e.left) \
+                and _is_self_dict(e.comparators[0]):
+            return "had"
+        if isinstance(e, ast.Call) and isinstance(e.func, ast.Attribute) and e.func.attr == "get" \
+                and _is_self_dict(e.func.value) and len(e.args) in (1, 2) and _is_key(tr, e.args[0]) and not e.keywords:
+            return "old"
+        return None
+
+    def first(self, tr, s, st, nxt):
+        # had, old = key in self.__dict__, self.__dict__.get(key)      (in any order, also one at a time)
+        if isinstance(s, ast.Assign) and len(s.targets) == 1 and not st["handed"]:
+            t, v = s.targets[0], s.value
+            pairs = None
+            if isinstance(t, ast.Tuple) and isinstance(v, ast.Tuple) and len(t.elts) == len(v.elts) \
+                    and all(isinstance(x, ast.Name) for x in t.elts):
+                pairs = list(zip(t.elts, v.elts))
+            elif isinstance(t, ast.Name):
+                pairs = [(t, v)]
+            if pairs:
+                kinds = [self._snapshot_kind(tr, x) for _, x in pairs]
+                if all(kinds):
+                    snap = dict(st["snap"])
+                    for (n, _), k in zip(pairs, kinds):
+                        if n.id in tr.env:
+                            raise Unsupported("snapshot re-binds %s" % n.id)
+                        snap[n.id] = k
+                    tr.notes.append("snapshot of self.__dict__[key] at line %d (pure reads, not emitted)" % s.lineno)
+                    return nxt(dict(st, snap=snap))
+        return None
+
+    def _restores(self, tr, body, st):
+        """the statements of a handler before its final bare `raise`: do they put self.__dict__[key] back?"""
+        if not body:
+            return False
+        snap = st["snap"]
+        if len(body) == 1 and isinstance(body[0], ast.If) and isinstance(body[0].test, ast.Name) \
+                and snap.get(body[0].test.id) == "had" and len(body[0].body) == 1 and len(body[0].orelse) == 1:
+            put, drop = body[0].body[0], body[0].orelse[0]
+            put_ok = (isinstance(put, ast.Assign) and len(put.targets) == 1 and _is_self_dict_key(tr, put.targets[0])
+                      and isinstance(put.value, ast.Name) and snap.get(put.value.id) == "old")
+            drop_ok = (isinstance(drop, ast.Expr) and isinstance(drop.value, ast.Call)
+                       and isinstance(drop.value.func, ast.Attribute) and drop.value.func.attr == "pop"
+                       and _is_self_dict(drop.value.func.value) and len(drop.value.args) == 2
+                       and _is_key(tr, drop.value.args[0]) and not drop.value.keywords)
+            if put_ok and drop_ok:
+                return True
+        raise Unsupported("handler around the hand-over does something else than restoring self.__dict__[key]")
+
+    def _handover(self, tr, call, st):
+        if st["handed"]:
+            raise Unsupported("two super().__setattr__ calls on one path")
+        args = call.args
+        if len(args) != 2 or not _is_key(tr, args[0]):
+            raise Unsupported("super().__setattr__ with another key")
+        return tr.val(args[1])
+
     def effect(self, tr, s, st, nxt):
         if isinstance(s, ast.Expr) and isinstance(s.value, ast.Call) and _is_super_call(s.value, "__setattr__"):
-            if st["handed"]:
-                raise Unsupported("two super().__setattr__ calls on one path")
-            args = s.value.args
-            if len(args) != 2 or not (isinstance(args[0], ast.Name) and tr.env.get(args[0].id) == "key"):
-                raise Unsupported("super().__setattr__ with another key")
-            b, a = tr.val(args[1])
-            st2 = dict(st, handed=a)
-            return tr.seq(b, nxt(st2))
+            b, a = self._handover(tr, s.value, st)
+            return tr.seq(b, nxt(dict(st, handed=a, rollback=False, snap={})))
+        if isinstance(s, ast.Try) and len(s.body) == 1 and isinstance(s.body[0], ast.Expr) \
+                and isinstance(s.body[0].value, ast.Call) and _is_super_call(s.body[0].value, "__setattr__"):
+            if len(s.handlers) != 1 or s.orelse or s.finalbody or not _catches_everything(s.handlers[0]) \
+                    or not s.handlers[0].body or not _bare_reraise(s.handlers[0].body[-1]):
+                raise Unsupported("try around the hand-over that is not `except Exception: ...; raise`")
+            rb = self._restores(tr, s.handlers[0].body[:-1], st)
+            b, a = self._handover(tr, s.body[0].value, st)
+            return tr.seq(b, nxt(dict(st, handed=a, rollback=rb, snap={})))
         return None
 
 
-class DelitemMode:
-    ret = "unit"
+class DelitemMode(Mode):
+    """`del self.__dict__[key]` / `<old> = self.__dict__.pop(key)` is the removal; afterwards
+    `self.__validate__()` is the hook, possibly inside `try: ... except Exception: self.__dict__[key] = <old>; raise`
+    (the removed value is put back when the hook rejects the result)."""
+    ret = "(bool * bool)"
 
     @staticmethod
     def init():
-        return {"deleted": False}
+        return {"deleted": False, "popped": None, "hook": False, "restores": False}
 
     @staticmethod
     def final(tr, st):
         if not st["deleted"]:
             return "(Raise Unmodelled)"      # a path that does not delete: not what the model describes
-        return "(Ok tt)"
+        return "(Ok (%s, %s))" % (E.blit(st["hook"]), E.blit(st["restores"]))
 
     def on_return(self, tr, s, st):
         return self.final(tr, st)
 
+    @staticmethod
+    def _is_pop_key(tr, e):
+        return (isinstance(e, ast.Call) and isinstance(e.func, ast.Attribute) and e.func.attr == "pop"
+                and _is_self_dict(e.func.value) and len(e.args) == 1 and _is_key(tr, e.args[0]) and not e.keywords)
+
+    @staticmethod
+    def _is_hook_call(s):
+        return (isinstance(s, ast.Expr) and isinstance(s.value, ast.Call) and isinstance(s.value.func, ast.Attribute)
+                and s.value.func.attr == "__validate__" and isinstance(s.value.func.value, ast.Name)
+                and s.value.func.value.id == "self" and not s.value.args and not s.value.keywords)
+
+    def first(self, tr, s, st, nxt):
+        if isinstance(s, ast.Assign) and len(s.targets) == 1 and isinstance(s.targets[0], ast.Name) \
+                and self._is_pop_key(tr, s.value):
+            if st["deleted"]:
+                raise Unsupported("two removals on one path")
+            if s.targets[0].id in tr.env:
+                raise Unsupported("removed value re-binds %s" % s.targets[0].id)
+            return nxt(dict(st, deleted=True, popped=s.targets[0].id))
+        return None
+
     def effect(self, tr, s, st, nxt):
-        if isinstance(s, ast.Delete) and len(s.targets) == 1:
-            t = s.targets[0]
-            if isinstance(t, ast.Subscript) and isinstance(t.value, ast.Attribute) and t.value.attr == "__dict__" \
-                    and isinstance(t.value.value, ast.Name) and t.value.value.id == "self" \
-                    and isinstance(t.slice, ast.Name) and tr.env.get(t.slice.id) == "key":
-                return nxt(dict(st, deleted=True))
+        if isinstance(s, ast.Delete) and len(s.targets) == 1 and _is_self_dict_key(tr, s.targets[0]):
+            if st["deleted"]:
+                raise Unsupported("two removals on one path")
+            return nxt(dict(st, deleted=True))
+        if isinstance(s, ast.Expr) and self._is_pop_key(tr, s.value):
+            if st["deleted"]:
+                raise Unsupported("two removals on one path")
+            return nxt(dict(st, deleted=True))
+        if self._is_hook_call(s):
+            if not st["deleted"] or st["hook"]:
+                raise Unsupported("__validate__ before the removal / twice")
+            return nxt(dict(st, hook=True))
+        if isinstance(s, ast.Try) and len(s.body) == 1 and self._is_hook_call(s.body[0]):
+            if not st["deleted"] or st["hook"]:
+                raise Unsupported("__validate__ before the removal / twice")
+            if len(s.handlers) != 1 or s.orelse or s.finalbody or not _catches_everything(s.handlers[0]) \
+                    or not s.handlers[0].body or not _bare_reraise(s.handlers[0].body[-1]):
+                raise Unsupported("try around the hook that is not `except Exception: ...; raise`")
+            rest = s.handlers[0].body[:-1]
+            if not rest:
+                restores = False
+            elif len(rest) == 1 and isinstance(rest[0], ast.Assign) and len(rest[0].targets) == 1 \
+                    and _is_self_dict_key(tr, rest[0].targets[0]) and isinstance(rest[0].value, ast.Name) \
+                    and st["popped"] and rest[0].value.id == st["popped"]:
+                restores = True
+            else:
+                raise Unsupported("handler around the hook does something else than putting the removed value back")
+            return nxt(dict(st, hook=True, restores=restores))
         return None
 
 
-class BoolMode:
+class BoolMode(Mode):
     ret = "bool"
 
     @staticmethod
@@ -366,7 +521,7 @@ class BoolMode:
         return None
 
 
-class UnitMode:
+class UnitMode(Mode):
     ret = "unit"
 
     @staticmethod
@@ -384,7 +539,7 @@ class UnitMode:
         return None
 
 
-class FieldSetMode:
+class FieldSetMode(Mode):
     """instance.__dict__[self._name] = X  is the store; instance.__validate__() the hook."""
     ret = "(pyval * bool)"
 
@@ -459,6 +614,7 @@ def render():
              "   equal to the hand-written model (Struct/Instance.v setattr / mstep, Struct/Shapes.v). *)",
              "From Coq Require Import ZArith NArith String List. Import ListNotations.",
              "From TP Require Import Base.PyVal Base.PyOps Base.PyOps2 Base.PyObj.",
+             "From TP Require Base.PyOpsVersioned.",
              "Local Open Scope string_scope.", ""]
     status = {}
     for coqname, origin, go in TARGETS:
